@@ -309,9 +309,21 @@ func init() {
 		w.call(fr, a[1], nil)
 		return nil
 	}
+	// sync.Pool RETAINS what it is given (LIFO per pool, as the per-P private slot does in a single goroutine
+	// between collections): Get hands back the object most recently Put, and calls New only when the pool is
+	// empty.  A correct program works for every behaviour the Pool contract allows, retention included, so a
+	// violation found under this model is a real one; it is the adversarial choice for "a result aliases a
+	// recycled buffer" (seed C18-3), which a Pool that always allocates can never show.  The pooled objects are
+	// kept engine-side (not reachable from the Pool variable), so ownership passes to whoever Gets them and the
+	// write-set recorder does not count them as shared memory.
 	m["(*sync.Pool).Get"] = func(fr *frame, a []Value) Value {
 		w := fr.w
 		p := a[0].(*Value)
+		if l := w.pools[p]; len(l) > 0 {
+			v := l[len(l)-1]
+			w.pools[p] = l[:len(l)-1]
+			return v
+		}
 		st := (*p).(StructV)
 		pt := fr.fn.Signature.Recv().Type().(*types.Pointer).Elem().Underlying().(*types.Struct)
 		for i := 0; i < pt.NumFields(); i++ {
@@ -326,7 +338,18 @@ func init() {
 		}
 		return IfaceV{}
 	}
-	m["(*sync.Pool).Put"] = nop
+	m["(*sync.Pool).Put"] = func(fr *frame, a []Value) Value {
+		w := fr.w
+		p := a[0].(*Value)
+		if iv, ok := a[1].(IfaceV); ok && iv.T == nil {
+			return nil // Put(nil) is ignored
+		}
+		if w.pools == nil {
+			w.pools = map[*Value][]Value{}
+		}
+		w.pools[p] = append(w.pools[p], a[1])
+		return nil
+	}
 
 	// ---- sort ----
 	m["sort.Slice"] = func(fr *frame, a []Value) Value {
